@@ -16,8 +16,12 @@ def compare_fst(p1, p2):
             return term_ord.compare_atom(len(p1[0]), len(p2[0]))
         for i in range(len(p1[0])):
             if p1[0][i] != p2[0][i]:
-                return compare_fst(p1[0][i], p2[0][i])
-            return 0
+                # Compare the bases, then (same base) the powers
+                cp = compare_fst(p1[0][i], p2[0][i])
+                if cp != 0:
+                    return cp
+                return term_ord.compare_atom(p1[0][i][1], p2[0][i][1])
+        return 0
 
 def collect_pairs(ps):
     """Reduce a list of pairs by collecting into groups according to
